@@ -48,3 +48,5 @@ open CaddyModel.C02
 #print axioms closing_tcp_usage_is_one_at_stop
 #print axioms shutdown_delay_decision_exact_for_tcp
 #print axioms retained_unix_usage_is_one_at_stop
+#print axioms possible_active_is_open
+#print axioms possible_active_after_drain
